@@ -11,8 +11,9 @@ MANIFEST = {
                   'definitions, and that corresponding statics of A and B are distinct objects (a facet that is not re-bound is shared and '
                   'fails this).',
     'level_note': 'One concrete registry per policy (Animal <- Dog, Cat; arity-2 method); facets: vptr_vector, basic_indirect_vptr, '
-                  'backward_compatible_error_handler (vectored_error); hash facets are stateless templates keyed the same way and are covered '
-                  'by the address-distinctness assertions of the C05 harness policies only indirectly. Interleavings with concurrent threads: C16.',
+                  'backward_compatible_error_handler (vectored_error); hash facets: address distinctness of their statics (KIND 5) and, behaviourally, the real hash search + v-table pointer '
+                  'publishing of P right after a re-bound policy Q did the same on the same arbitrary ids (c05_hash.cpp MODE 4, bounds as for C05): P as '
+                  'perfect as alone, Q\'s multiplier / shift / length / control / vptrs unchanged. Interleavings with concurrent threads: C16.',
 }
 ASSUMPTIONS = ['single-threaded interleaving of the two policies\' operations as listed', 'container models as for C01']
 
